@@ -185,6 +185,10 @@ class BuiltinMixin(object):
         return core.svirt(m.ty.v.elem, lambda x, m=m: core.exists_ty(
             m.ty.k, lambda k: z3.And(core.smem_t(core.mdom(m), k), z3.Select(z3.Select(core.mval(m), k), x))))
 
+    def sf_box(self, e, st):
+        """box(x): x as a dynamically typed value"""
+        return self.adapt(self.ev1(e.args[0], st), PY)
+
     def sf_single(self, e, st):
         a = self.ev1(e.args[0], st)
         return core.sadd(core.sempty(a.ty), a)
